@@ -49,6 +49,24 @@ func ResolveRef(root interface{}, ref *Ref) (*Schema, error) {
 			return nil, err
 		}
 		return newSch, nil
+	case *SchemaOrBool:
+		// additionalProperties / additionalItems of a typed schema
+		if sch != nil && sch.Schema != nil {
+			return sch.Schema, nil
+		}
+		return nil, fmt.Errorf("type: %T: %w", sch, ErrUnknownTypeForReference)
+	case *SchemaOrArray:
+		// items of a typed schema, when it is a single schema
+		if sch != nil && sch.Schema != nil {
+			return sch.Schema, nil
+		}
+		return nil, fmt.Errorf("type: %T: %w", sch, ErrUnknownTypeForReference)
+	case SchemaOrStringArray:
+		// a schema dependency of a typed schema
+		if sch.Schema != nil {
+			return sch.Schema, nil
+		}
+		return nil, fmt.Errorf("type: %T: %w", sch, ErrUnknownTypeForReference)
 	default:
 		return nil, fmt.Errorf("type: %T: %w", sch, ErrUnknownTypeForReference)
 	}
